@@ -4,6 +4,7 @@
   may run between any two flusher segments.
 -/
 import GoHeader.Lemmas.Conc
+import GoHeader.Store.TailRace
 namespace GoHeader.C17
 open GoHeader GoHeader.Conc
 
@@ -100,5 +101,255 @@ theorem c17_appended_stays (evs : List Ev) (e : Ev) (k : Nat) (hk : k ∈ (run e
 
 example : (run [.append [1, 2, 3], .flusher, .flusher]).head = some 1 ∧
           1 ∈ (run [.append [1, 2, 3], .flusher, .flusher]).stored := by decide
+
+end GoHeader.C17
+
+/-! ### DeleteRange at the tail racing an Append at the head (all interleavings) -/
+namespace GoHeader.C17
+open GoHeader.Store.TailRace
+
+/-- what every reachable state of the race satisfies -/
+structure Inv (c : Cfg) (s : St) : Prop where
+  below : ∀ h, h < c.t0 → s.has h = false
+  above : ∀ h, c.n + 1 < h → s.has h = false
+  top   : s.has (c.n + 1) = true ↔ s.f ≠ .start
+  head  : s.head = if s.f = .start ∨ s.f = .wrote then c.n else c.n + 1
+  del   : ∀ k, s.d = .deleting k → c.t0 ≤ k ∧ k ≤ c.to ∧ s.tail = c.t0 ∧
+            (∀ h, c.t0 ≤ h → h < k → s.has h = false) ∧ (∀ h, k ≤ h → h ≤ c.n → s.has h = true)
+  fin   : s.d = .done → s.tail = c.to ∧ (∀ h, h < c.to → s.has h = false) ∧ (∀ h, c.to ≤ h → h ≤ c.n → s.has h = true)
+  walk  : ∀ cur ch, s.f = .walking cur ch → ch = false ∧ (cur = c.t0 ∨ (cur = c.to ∧ s.d = .done))
+
+theorem inv_init (c : Cfg) (h1 : 1 ≤ c.t0) (h2 : c.t0 < c.to) (h3 : c.to ≤ c.n) : Inv c (init c) where
+  below := by intro h hh; simp [init]; omega
+  above := by intro h hh; simp [init]; omega
+  top := by simp [init]
+  head := by simp [init]
+  del := by
+    intro k hk
+    simp [init] at hk
+    subst hk
+    refine ⟨Nat.le_refl _, by omega, rfl, ?_, ?_⟩
+    · intro h a b; omega
+    · intro h a b; simp [init]; exact ⟨a, b⟩
+  fin := by intro h; simp [init] at h
+  walk := by intro cur ch h; simp [init] at h
+
+theorem inv_stepF (c : Cfg) (s s' : St) (h1 : 1 ≤ c.t0) (h2 : c.t0 < c.to) (h3 : c.to ≤ c.n)
+    (hi : Inv c s) (hs : stepF s = some s') : Inv c s' := by
+  obtain ⟨below, above, top, head, del, fin, walk⟩ := hi
+  unfold stepF at hs
+  split at hs
+  · -- start: the header lands in pending
+    rename_i hf
+    have hh : s.head = c.n := by simp [hf] at head; exact head
+    cases hs
+    exact {
+      below := by
+        intro h x
+        show (if h = s.head + 1 then true else s.has h) = false
+        rw [if_neg (by omega)]; exact below h x
+      above := by
+        intro h x
+        show (if h = s.head + 1 then true else s.has h) = false
+        rw [if_neg (by omega)]; exact above h x
+      top := by
+        show (if c.n + 1 = s.head + 1 then true else s.has (c.n + 1)) = true ↔ FPc.wrote ≠ FPc.start
+        rw [if_pos (by omega)]; simp
+      head := by show s.head = if FPc.wrote = FPc.start ∨ FPc.wrote = FPc.wrote then c.n else c.n + 1; simp [hh]
+      del := by
+        intro k hk
+        obtain ⟨a, b, t, lo, hi'⟩ := del k hk
+        refine ⟨a, b, t, ?_, ?_⟩
+        · intro h x y
+          show (if h = s.head + 1 then true else s.has h) = false
+          rw [if_neg (by omega)]; exact lo h x y
+        · intro h x y
+          show (if h = s.head + 1 then true else s.has h) = true
+          rw [if_neg (by omega)]; exact hi' h x y
+      fin := by
+        intro hd
+        obtain ⟨t, lo, hi'⟩ := fin hd
+        refine ⟨t, ?_, ?_⟩
+        · intro h x
+          show (if h = s.head + 1 then true else s.has h) = false
+          rw [if_neg (by omega)]; exact lo h x
+        · intro h x y
+          show (if h = s.head + 1 then true else s.has h) = true
+          rw [if_neg (by omega)]; exact hi' h x y
+      walk := by intro cur ch h; cases h }
+  · -- wrote: advanceHead publishes n+1
+    rename_i hf
+    have hh : s.head = c.n := by simp [hf] at head; exact head
+    have ht : s.has (c.n + 1) = true := top.2 (by rw [hf]; simp)
+    cases hs
+    exact {
+      below := below, above := above
+      top := by show s.has (c.n + 1) = true ↔ FPc.advanced ≠ FPc.start; simp [ht]
+      head := by show s.head + 1 = if FPc.advanced = FPc.start ∨ FPc.advanced = FPc.wrote then c.n else c.n + 1; simp [hh]
+      del := del, fin := fin
+      walk := by intro cur ch h; cases h }
+  · -- advanced: nextTail loads the pointer — t0 while the deleter runs, `to` once it is done
+    rename_i hf
+    have hh : s.head = c.n + 1 := by simp [hf] at head; exact head
+    have ht : s.has (c.n + 1) = true := top.2 (by rw [hf]; simp)
+    cases hs
+    exact {
+      below := below, above := above
+      top := by show s.has (c.n + 1) = true ↔ FPc.walking s.tail false ≠ FPc.start; simp [ht]
+      head := by
+        show s.head = if FPc.walking s.tail false = FPc.start ∨ FPc.walking s.tail false = FPc.wrote then c.n else c.n + 1
+        simp [hh]
+      del := del, fin := fin
+      walk := by
+        intro cur ch h
+        cases h
+        refine ⟨rfl, ?_⟩
+        cases hd : s.d with
+        | deleting k => exact Or.inl (del k hd).2.2.1
+        | done => exact Or.inr ⟨(fin hd).1, rfl⟩ }
+  · -- walking: the look-up below the loaded tail never finds anything, and nothing is published
+    rename_i cur ch hf
+    have hh : s.head = c.n + 1 := by simp [hf] at head; exact head
+    have ht : s.has (c.n + 1) = true := top.2 (by rw [hf]; simp)
+    obtain ⟨hch, hcur⟩ := walk cur ch hf
+    subst hch
+    have hnf : s.has (cur - 1) = false := by
+      rcases hcur with rfl | ⟨rfl, hd⟩
+      · exact below _ (by omega)
+      · exact (fin hd).2.1 _ (by omega)
+    rw [hnf] at hs
+    simp at hs
+    cases hs
+    exact {
+      below := below, above := above
+      top := by show s.has (c.n + 1) = true ↔ FPc.done ≠ FPc.start; simp [ht]
+      head := by show s.head = if FPc.done = FPc.start ∨ FPc.done = FPc.wrote then c.n else c.n + 1; simp [hh]
+      del := del, fin := fin
+      walk := by intro cur ch h; cases h }
+  · cases hs
+
+theorem inv_stepD (c : Cfg) (s s' : St) (h1 : 1 ≤ c.t0) (h2 : c.t0 < c.to) (h3 : c.to ≤ c.n)
+    (hi : Inv c s) (hs : stepD c s = some s') : Inv c s' := by
+  obtain ⟨below, above, top, head, del, fin, walk⟩ := hi
+  unfold stepD at hs
+  split at hs
+  · rename_i k hd
+    obtain ⟨a, b, t, lo, hi'⟩ := del k hd
+    split at hs
+    · -- delete height k
+      rename_i hk
+      cases hs
+      exact {
+        below := by
+          intro h x
+          show (if h = k then false else s.has h) = false
+          split
+          · rfl
+          · exact below h x
+        above := by
+          intro h x
+          show (if h = k then false else s.has h) = false
+          split
+          · rfl
+          · exact above h x
+        top := by
+          show (if c.n + 1 = k then false else s.has (c.n + 1)) = true ↔ s.f ≠ FPc.start
+          rw [if_neg (by omega)]; exact top
+        head := head
+        del := by
+          intro k' hk'
+          cases hk'
+          refine ⟨by omega, by omega, t, ?_, ?_⟩
+          · intro h x y
+            show (if h = k then false else s.has h) = false
+            split
+            · rfl
+            · exact lo h x (by omega)
+          · intro h x y
+            show (if h = k then false else s.has h) = true
+            rw [if_neg (by omega)]; exact hi' h (by omega) y
+        fin := by intro h; cases h
+        walk := by
+          intro cur ch hf
+          obtain ⟨p, q⟩ := walk cur ch hf
+          refine ⟨p, ?_⟩
+          rcases q with q | ⟨_, q⟩
+          · exact Or.inl q
+          · rw [hd] at q; cases q }
+    · -- setTail publishes `to`
+      rename_i hk
+      have : k = c.to := by omega
+      subst this
+      cases hs
+      exact {
+        below := below, above := above, top := top, head := head
+        del := by intro k' hk'; cases hk'
+        fin := by
+          intro _
+          refine ⟨rfl, ?_, hi'⟩
+          intro h x
+          by_cases y : h < c.t0
+          · exact below h y
+          · exact lo h (by omega) x
+        walk := by
+          intro cur ch hf
+          obtain ⟨p, q⟩ := walk cur ch hf
+          refine ⟨p, ?_⟩
+          rcases q with q | ⟨q, _⟩
+          · exact Or.inl q
+          · exact Or.inr ⟨q, rfl⟩ }
+  · cases hs
+
+theorem inv_run (c : Cfg) (h1 : 1 ≤ c.t0) (h2 : c.t0 < c.to) (h3 : c.to ≤ c.n) (sched : List Bool) :
+    Inv c (run c sched) := by
+  unfold run
+  suffices ∀ s, Inv c s → Inv c (sched.foldl (step c) s) from this _ (inv_init c h1 h2 h3)
+  induction sched with
+  | nil => intro s hs; exact hs
+  | cons w ws ih =>
+    intro s hs
+    apply ih
+    unfold step
+    cases w
+    · show Inv c (match stepD c s with | some s' => s' | none => s)
+      cases e : stepD c s with
+      | none => exact hs
+      | some s' => exact inv_stepD c s s' h1 h2 h3 hs e
+    · show Inv c (match stepF s with | some s' => s' | none => s)
+      cases e : stepF s with
+      | none => exact hs
+      | some s' => exact inv_stepF c s s' h1 h2 h3 hs e
+
+/-- **C17, tail-side delete racing an append**: under EVERY interleaving of the flush loop's accesses with the
+deleter's, once both are done the Tail is the one the deleter set, the Head the one the appender reached, and
+exactly the heights `to .. n+1` are readable: a gap-free chain, the result of either sequential order.  -/
+theorem c17_tail_delete_racing_append_gap_free (c : Cfg) (h1 : 1 ≤ c.t0) (h2 : c.t0 < c.to) (h3 : c.to ≤ c.n)
+    (sched : List Bool) (hf : (run c sched).f = .done) (hd : (run c sched).d = .done) :
+    (run c sched).tail = c.to ∧ (run c sched).head = c.n + 1 ∧
+    ∀ h, (run c sched).has h = true ↔ (c.to ≤ h ∧ h ≤ c.n + 1) := by
+  have I := inv_run c h1 h2 h3 sched
+  obtain ⟨t, lo, hi⟩ := I.fin hd
+  refine ⟨t, by simp [I.head, hf], ?_⟩
+  intro h
+  by_cases a : h < c.to
+  · rw [lo h a]; simp; intro; omega
+  · by_cases b : h ≤ c.n
+    · rw [hi h (by omega) b]; simp; omega
+    · by_cases e : h = c.n + 1
+      · subst e
+        have : (run c sched).has (c.n + 1) = true := I.top.2 (by rw [hf]; simp)
+        rw [this]; simp; omega
+      · rw [I.above h (by omega)]; simp; intro; omega
+
+/-- the flush loop never publishes a tail during the race (its `changed` flag stays false) -/
+theorem c17_recede_never_stores_stale_tail (c : Cfg) (h1 : 1 ≤ c.t0) (h2 : c.t0 < c.to) (h3 : c.to ≤ c.n)
+    (sched : List Bool) (cur : Nat) (ch : Bool) (h : (run c sched).f = .walking cur ch) : ch = false :=
+  ((inv_run c h1 h2 h3 sched).walk cur ch h).1
+
+/-- non-vacuity: a schedule with 4 flush-loop turns and `to - t0 + 1` deleter turns ends both actors -/
+example : (run ⟨2, 5, 7⟩ [true, true, true, false, false, true, false, false]).f = .done ∧
+    (run ⟨2, 5, 7⟩ [true, true, true, false, false, true, false, false]).d = .done ∧
+    (run ⟨2, 5, 7⟩ [true, true, true, false, false, true, false, false]).tail = 5 ∧
+    (run ⟨2, 5, 7⟩ [true, true, true, false, false, true, false, false]).head = 8 := by decide
 
 end GoHeader.C17
